@@ -92,6 +92,13 @@ func (r *responseStorer) StoreResponse(
 	} else {
 		refs[refIndex] = refEntry // Update existing response reference
 	}
+	// An index holds one reference per stored variant: drop any other reference to
+	// this very variant (e.g. "Vary: *" never matches, so it is never selected for
+	// replacement), instead of letting the index grow with every request.
+	refs = slices.DeleteFunc(refs, func(ref *ResponseRef) bool {
+		return ref != refEntry && ref != nil && ref.ResponseID == responseID &&
+			maps.Equal(ref.VaryResolved, varyResolved)
+	})
 
 	return r.cache.SetRefs(urlKey, refs)
 }
